@@ -9,7 +9,7 @@ from __future__ import annotations
 from typing import TYPE_CHECKING
 
 from xknx.dpt import DPTArray, DPTBinary
-from xknx.exceptions import CouldNotParseTelegram
+from xknx.exceptions import ConversionError, CouldNotParseTelegram
 
 from .remote_value import GroupAddressesType, RemoteValue, RVCallbackType
 
@@ -71,4 +71,12 @@ class RemoteValueScaling(RemoteValue[int]):
     @staticmethod
     def _calc_to_knx(range_from: int, range_to: int, value: float) -> int:
         delta = range_to - range_from
-        return round((value - range_from) / delta * 255)
+        try:
+            knx_value = round((value - range_from) / delta * 255)
+        except (TypeError, ValueError, OverflowError, ZeroDivisionError) as err:
+            raise ConversionError("Could not scale value", value=value) from err
+        if not 0 <= knx_value <= 255:
+            raise ConversionError(
+                "Value out of range", value=value, range=(range_from, range_to)
+            )
+        return knx_value
